@@ -258,6 +258,39 @@ func (r *nnsRun) opTransferForward(w who, delta int64, name string, probe, final
 	return o
 }
 
+// opRegisterForward: a contract registers a name for itself (it is the caller, so it "witnesses" the owner) and, from
+// the payment callback of that registration, transfers the name on to final. Returns false when the model does not
+// predict a plain success (the caller then falls back to an ordinary registration).
+func (r *nnsRun) opRegisterForward(w who, delta int64, name string, probe, final util.Uint160, expireSec int64) bool {
+	t := int64(r.c.Now()) + 1 + max64(delta, 1) // (arming the probe takes one block of one millisecond)
+	m := r.m
+	ws := r.witnesses(w)
+	if !m.roots[tldOf(name)] || !m.parentsAlive(name, t) || (levelOf(name) > 2 && !m.names[parentOf(name)].isAdmin(ws)) || w.viaActor {
+		return false
+	}
+	old, exists := m.names[name]
+	if exists && t < old.exp {
+		return false
+	}
+	if o := r.c.Invoke(nil, probe, "arm", r.nns, "transfer", []any{final, name, nil}, int64(1)); !o.Halt {
+		panic(chainkit.HarnessError{Msg: "nns driver: arming the forwarding probe: " + o.Fault})
+	}
+	o := r.c.InvokeAt(uint64(max64(delta, 1)), w.signers, probe, "call", r.nns, "register", []any{name, probe, "mail@nspcc.io", int64(3600), int64(600), expireSec, int64(3600)})
+	what := fmt.Sprintf("register(%s, %ds) by a contract for itself that forwards the name to %s from its payment callback, sent by %s at t=%d", name, expireSec, r.names[final], w.desc, t)
+	r.h.Op("%s -> %s", what, o)
+	r.expect(what, o, "true")
+	from := ""
+	if exists {
+		from = fmt.Sprintf("%x", old.owner)
+	} else {
+		m.supply++
+	}
+	r.expectTransfers(what, o, []string{fmt.Sprintf("%s>%x:%s", from, probe.BytesBE(), name), fmt.Sprintf("%x>%x:%s", probe.BytesBE(), final.BytesBE(), name)})
+	m.names[name] = &nnsName{owner: final.BytesBE(), exp: t + expireSec*1000}
+	r.h.Mark("registration-forwarded-by-the-registering-contract")
+	return true
+}
+
 const tenYearsMs = 10 * msPerYear
 
 // opRenew renews at now+delta.
